@@ -68,7 +68,7 @@ def after_failed_shapes(ctx):
               'outputs': {'success': tmap({'r': ref('steps.b.outputs.success.tok'), 'a': ref('steps.a.outputs.success.tok')})}}
         script = {'a': {'exec': {'out': 'success', 'delay_ms': 3}}, 'b': {'exec': {'out': 'success', 'delay_ms': 3}}}
         base = {'x': 'x', 'n': 1, 'flag': True}
-        for pattern in ([(False, True, True)] if ctx.quick else [(False, True, True), (False, False, True), (True, False, True)]):
+        for pattern in ([(False, True, True), (False, False, True)] if ctx.quick else [(False, True, True), (False, False, True), (True, False, True), (False, False, False)]):
             inputs = [dict(base, x='run%d' % k, flag=fl) for k, fl in enumerate(pattern)]
             runs = [{'input': i, 'start_delay_ms': 0} for i in inputs]
             override = {k: (['success'] if fl else ['error']) for k, fl in enumerate(pattern)}
